@@ -45,6 +45,8 @@ def doc_key(c):
         return "vpsig|%s|%s" % (c["fmt"], c["kh"])
     if c["fam"] == "vpvc":
         return "vpvc|%s" % c["fmt"]
+    if c["fam"] == "vpmulti":
+        return "vpmulti|%s|%s|%s" % (c["fmt"], c["vcFmt"], c["seq"][0])
     if c["fam"] == "mut":
         return "mut|%s|%s" % (c["kind"], c["fmt"])
     return c["fam"]
@@ -55,7 +57,7 @@ def shard(cases, n):
     groups = {}
     for ci in cases:
         groups.setdefault(doc_key(ci["case"]), []).append(ci)
-    weight = lambda k: len(groups[k]) * (6 if k.startswith("mut") or k == "pairs" else 1)
+    weight = lambda k: len(groups[k]) * (6 if k.startswith("mut") or k == "pairs" else 2 if k.startswith("vpmulti") else 1)
     parts, load = [[] for _ in range(n)], [0] * n
     for k in sorted(groups, key=lambda k: (-weight(k), k)):
         i = load.index(min(load))
@@ -131,6 +133,10 @@ def judge(rep, prop, inp, by_id, results, stats, samples, replay_obj=None):
             if v.get("panic"):
                 rep.violation(dict(kind="panic", site=panic_site(v["panic"])), replay)
                 continue
+            if v.get("accept") and v.get("returned_invalid"):
+                # the node hands out, as verified, a credential that its own Verify refuses
+                rep.violation(dict(kind="returned-unverified-credential", family=c["fam"], format=c["fmt"], entry=c.get("entry", "verifier")),
+                              replay_obj or dict(replay, returned_invalid=v["returned_invalid"][:3]))
             if v.get("accept") and req == "reject":
                 failing = sorted(ci.get("failing") or [])
                 sig = dict(kind="accepted-invalid", family=c["fam"], format=c["fmt"], failing="+".join(failing))
@@ -140,6 +146,12 @@ def judge(rep, prop, inp, by_id, results, stats, samples, replay_obj=None):
                     sig.update(presenter=c["presenter"])
                 if str(c.get("vcState", "")).startswith("forged"):
                     sig.update(carried=c["vcState"])
+                if c.get("seq"):   # first credential that must not be there: class, position, what stands before it
+                    bad = [i for i, e in enumerate(c["seq"]) if e in ("tampered", "tampered2", "stripped", "expired", "other-subject")]
+                    if bad:
+                        i = bad[0]
+                        sig.update(carried="%s@%d/%d%s" % (c["seq"][i], i + 1, len(c["seq"]), " after " + c["seq"][i - 1] if i else ""),
+                                   entry=c.get("entry", "verifier"))
                 rep.violation(sig, replay)
             elif not v.get("accept") and req == "accept":
                 rep.violation(dict(kind="own-output-rejected", family=c["fam"], format=c["fmt"], reason=cls), replay)
@@ -274,7 +286,7 @@ def run(prop, tier, seed, replay=None):
 
     # 4. verdicts
     judge(rep, prop, inp, by_id, results, stats, samples)
-    n_nonmut = sum(1 for c in cases if c["case"]["fam"] in ("vc", "vpsig", "vpvc"))
+    n_nonmut = sum(1 for c in cases if c["case"]["fam"] in ("vc", "vpsig", "vpvc", "vpmulti"))
     if len(rep.inconclusive) <= 2:
         rep.inconclusive = []
     if stats["drift_verdict"] > max(5, len(cases) // 50) and not rep.violations:
